@@ -23,7 +23,8 @@ Literals: `parseBitVector` on `x` / `o` / `b` literals of any length with or wit
 (`literal_digits_spec`, `parseBitVector_digits_spec`); `d` literals denote their number in `Log2C(n+1)` bits or the explicit width
 (`decimal_literal_spec`); binary text round trip.
 `parseBitVector_spec`: for EVERY input string the parser's result is the grammar specification `specLiteral` (all five literal kinds, all
-rejections). Covered by correspondence only (driver compares the model with the implementation, no theorem): formatting (`operator<<` binary / hex).
+rejections). `formatRange_refines`: `formatRange` is its bit-array specification (reads only the addressed range).
+Covered by correspondence only (driver compares the model with the implementation, no theorem): `operator<<` binary / hex and `formatState`.
 -/
 namespace Gatery.C18.Props
 open Gatery.C18 Gatery.Gen
@@ -204,6 +205,15 @@ theorem parseBitVector_spec (s : String) : resultBits (parseBitVector s) = specL
 
 example : specLiteral "12sAb" = none ∧ specLiteral "20sAb" = some ((List.range 20).map fun i => some (decide (i < 16) && (['A', 'b'].getD (i / 8) ' ').toNat.testBit (i % 8))) := by
   decide
+
+/-- **formatRange.** For every base, offset and size inside the vector, `formatRange` (digit groups of `Log2C(base)` bits, most significant
+    first, leading digit padded, `X` for a group with an undefined bit) equals its specification on the bit arrays — so it depends on
+    the bits of `[offset, offset+size)` only, never on the bit behind the range. -/
+theorem formatRange_refines (v d : Plane) (n base offset size : Nat) (hn : offset + size ≤ n) :
+    formatRange v d base offset size = specFormatRange (absPlane v n) (absPlane d n) base offset size :=
+  formatRange_abs v d n base offset size hn
+
+example : formatRange [0x2F5#64] [0x3DF#64] 16 0 10 = "2X5" ∧ formatRange [0x2F5#64] [0x3DF#64] 8 4 5 = "1X" ∧ formatRange [0x2F5#64] [0x3FF#64] 16 0 10 = "2F5" := by decide
 
 /-- Formatting then parsing (grammar level): the binary text of any four-state vector, read as a `b` literal, denotes that vector. -/
 theorem binary_text_round_trip (bits : List (Option Bool)) :
